@@ -358,6 +358,12 @@ func runExec(x *h.Ctx, c ExecCase) string {
 	// sequential repeat: same results
 	for i, in := range c.Inputs {
 		if got := execOnce(prog, string(in), c.Native, false); got != want[i] {
+			if strings.Contains(got.out, "WaitDelay expired") || strings.Contains(want[i].out, "WaitDelay expired") {
+				// KF-C13-4 (goawk drops a child's remaining output 250 ms after the child exits; random on a
+				// saturated machine): such an execution is not compared
+				x.Class("waitdelay-expired-not-compared")
+				continue
+			}
 			return fmt.Sprintf("a second sequential execution of the same (program, input) gave a different result\nfirst:  %+v\nsecond: %+v\nsource:\n%s\ninput: %q", want[i], got, c.Src, in)
 		}
 	}
